@@ -129,7 +129,7 @@ func c13tile(c *h.Ctx, t maptile.Tile, strictCorners bool, r *h.Rand) {
 	}
 	// parent / children
 	tb := t.Bound()
-	if t.Z < 30 {
+	if t.Z <= 30 {
 		ch := t.Children()
 		c.Eval()
 		if len(ch) != 4 {
